@@ -69,6 +69,26 @@ def zcompress(data, level=3, zdict=None):
     if _z.ZSTD_isError(r): raise ValueError('zstd compress')
     return dst.raw[:r]
 
+_z.ZSTD_CCtx_setParameter.restype = ctypes.c_size_t
+_z.ZSTD_CCtx_setParameter.argtypes = [ctypes.c_void_p, ctypes.c_int, ctypes.c_int]
+_z.ZSTD_CCtx_loadDictionary.restype = ctypes.c_size_t
+_z.ZSTD_CCtx_loadDictionary.argtypes = [ctypes.c_void_p, ctypes.c_char_p, ctypes.c_size_t]
+_z.ZSTD_compress2.restype = ctypes.c_size_t
+_z.ZSTD_compress2.argtypes = [ctypes.c_void_p, ctypes.c_char_p, ctypes.c_size_t, ctypes.c_char_p, ctypes.c_size_t]
+
+def zcompress_nocs(data, level=3, zdict=None):
+    """a frame whose header does NOT record the content size (ZSTD_c_contentSizeFlag = 0): legal zstd, never written by zck"""
+    cap = _z.ZSTD_compressBound(len(data))
+    dst = ctypes.create_string_buffer(cap or 1)
+    c = _z.ZSTD_createCCtx()
+    _z.ZSTD_CCtx_setParameter(c, 100, level)      # ZSTD_c_compressionLevel
+    _z.ZSTD_CCtx_setParameter(c, 200, 0)          # ZSTD_c_contentSizeFlag
+    if zdict: _z.ZSTD_CCtx_loadDictionary(c, zdict, len(zdict))
+    r = _z.ZSTD_compress2(c, dst, cap, data, len(data))
+    _z.ZSTD_freeCCtx(c)
+    if _z.ZSTD_isError(r): raise ValueError('zstd compress2')
+    return dst.raw[:r]
+
 def zdecompress(frame, declared, zdict=None):
     """what zchunk's end_dchunk obtains: `declared` zero-initialised bytes into which the frame is
     decompressed; returns (bytes of length declared, produced) or None on a zstd error"""
